@@ -153,6 +153,7 @@ type World struct {
 	Slashed      *uint256.Int
 	LostFees     *uint256.Int
 
+	everProposals map[string]bool
 	// every successful tx hash, for "at most once"
 	succeeded map[string]int64
 
@@ -211,7 +212,7 @@ func NewWorld(g *Genesis) *World {
 		Rewards: map[string]*MReward{}, Open: map[string]*MProposal{}, Frozen: map[string]*MProposal{},
 		delegAt: map[int64]map[string]*MDeleg{}, Reported: map[string]SetEntry{},
 		GenesisTotal: u256(0), Withdrawn: u256(0), Slashed: u256(0), LostFees: u256(0),
-		succeeded: map[string]int64{}, Contracts: map[string]string{},
+		succeeded: map[string]int64{}, Contracts: map[string]string{}, everProposals: map[string]bool{},
 		PreMiss: map[string]int{}, Feat: map[string]int{}, Excluded: map[string]int{},
 		Expected: map[int64]map[string]SetEntry{}, ParamsAt: map[int64]*Params{},
 	}
